@@ -605,6 +605,8 @@ theorem Inv.step {s s' : State} {st : Step} (hi : Inv s) (h : step? s st = some 
       · subst hba; rw [setSock_same]; exact (hi.books b).gc
       · rw [setSock_ne _ _ hba]; exact hi.books b
   | accept t g a => exact hi.frame rfl rfl rfl rfl rfl (fun _ => rfl) hi.idleNext hi.stoppingNext hi.books
+  | adminReplace g a => exact hi.frame rfl rfl rfl rfl rfl (fun _ => rfl) hi.idleNext hi.stoppingNext hi.books
+  | adminClose g a => exact hi.frame rfl rfl rfl rfl rfl (fun _ => rfl) hi.idleNext hi.stoppingNext hi.books
   | complete t g => exact hi.frame rfl rfl rfl rfl rfl (fun _ => rfl) hi.idleNext hi.stoppingNext hi.books
   | cb k g =>
     cases k with
@@ -675,6 +677,8 @@ theorem KeepInv.step {a : Addr} {s s' : State} {st : Step} {rest : List Step} (h
   | ret => exact ⟨⟨⟨c, hc, hac⟩, hn⟩, by simpa [keeps] using hk⟩
   | gc b => exact ⟨⟨⟨c, hc, hac⟩, hn⟩, by simpa [keeps] using hk⟩
   | accept t g b => exact ⟨⟨⟨c, hc, hac⟩, hn⟩, by simpa [keeps] using hk⟩
+  | adminReplace g b => exact ⟨⟨⟨c, hc, hac⟩, hn⟩, by simpa [keeps] using hk⟩
+  | adminClose g b => exact ⟨⟨⟨c, hc, hac⟩, hn⟩, by simpa [keeps] using hk⟩
   | complete t g => exact ⟨⟨⟨c, hc, hac⟩, hn⟩, by simpa [keeps] using hk⟩
   | cb k g => cases k <;> exact ⟨⟨⟨c, hc, hac⟩, hn⟩, by simpa [keeps] using hk⟩
 
@@ -701,6 +705,7 @@ theorem keeps_append_left (a : Addr) : ∀ (xs ys : List Step), keeps a (xs ++ y
     | bindStale b | bind b | gc b => simpa [keeps] using keeps_append_left a rest ys (by simpa [keeps] using h)
     | close g b | complete g b | cb g b => simpa [keeps] using keeps_append_left a rest ys (by simpa [keeps] using h)
     | accept t g b => simpa [keeps] using keeps_append_left a rest ys (by simpa [keeps] using h)
+    | adminReplace g b | adminClose g b => simpa [keeps] using keeps_append_left a rest ys (by simpa [keeps] using h)
 
 /-! ### one reload: the only configs alive are the old and the new one -/
 
@@ -747,6 +752,8 @@ theorem alive_step {s s' : State} {st : Step} {P : Gen → Prop} (hP : ∀ g, al
   | ret => exact ⟨fun g hg => hP g hg, by simpa [oneReload] using ho⟩
   | gc b => exact ⟨fun g hg => hP g hg, by simpa [oneReload] using ho⟩
   | accept t g b => exact ⟨fun g hg => hP g hg, by simpa [oneReload] using ho⟩
+  | adminReplace g b => exact ⟨fun g hg => hP g hg, by simpa [oneReload] using ho⟩
+  | adminClose g b => exact ⟨fun g hg => hP g hg, by simpa [oneReload] using ho⟩
   | complete t g => exact ⟨fun g hg => hP g hg, by simpa [oneReload] using ho⟩
   | cb k g => cases k <;> exact ⟨fun g hg => hP g hg, by simpa [oneReload] using ho⟩
 
